@@ -114,6 +114,7 @@ type mach struct {
 	symHeap    map[string]*mv
 	steps      int
 	maxSteps   int
+	maxDepth   int // call depth at which a run is given up (0: 150)
 	finfo      map[*ssa.Function]map[ssa.Value]int32
 	cov        map[*ssa.Function]bool
 	crashCache map[*ssa.Function]*crashEntry
@@ -1011,7 +1012,7 @@ func (m *mach) callFn(caller *mframe, fn *ssa.Function, args []mv, env []mv) mv 
 			return m.opaqueResult(fn, args)
 		}
 	}
-	if m.depth > 150 {
+	if m.depth > 150 && m.depth > m.maxDepth {
 		m.abort("call depth exceeded in %s", fn.Name())
 	}
 	m.depth++
